@@ -51,7 +51,11 @@ pub fn build_engine(kind: &str) -> Engine {
     e
 }
 
-pub fn register_helpers(_e: &mut Engine) {}
+pub fn register_helpers(e: &mut Engine) {
+    use steel::steel_vm::register_fn::RegisterFn;
+    // progress mark: survives the death of the child, so a crash or hang is attributed to one call
+    e.register_fn("vf-mark", |t: isize| crate::util::child_mark(&t.to_string()));
+}
 
 pub fn enc_result(r: Result<Vec<SteelVal>, steel::SteelErr>, out: String) -> Value {
     match r {
@@ -90,6 +94,15 @@ pub fn run_step(engine: &mut Engine, cap: &mut OutCapture, step: &Value) -> Valu
             let v: Vec<usize> = (0..16).map(steel::verif::counter).collect();
             json!({"s":"ok","v":v,"out":""})
         }
+        "depths" => {
+            let (a, b) = steel::verif::stack_depths(engine);
+            json!({"s":"ok","v":[a, b],"out":""})
+        }
+        "symstats" => {
+            let t = steel::verif::symbol_map_stats(engine);
+            json!({"s":"ok","v":[t.0, t.1, t.2, t.3, t.4],"out":""})
+        }
+        "natives" => json!({"s":"ok","v":steel::verif::native_function_globals(engine),"out":""}),
         "rss" => json!({"s":"ok","v":[rss_hwm_kb()],"out":""}),
         "threads" => json!({"s":"ok","v":[thread_count()],"out":""}),
         _ => json!({"s":"badop"}),
@@ -109,7 +122,13 @@ pub fn run_case(engine: &mut Engine, cap: &mut OutCapture, case: &Value) -> Valu
     if let Some(steps) = case.get("steps").and_then(|s| s.as_array()) {
         for st in steps {
             let r = run_step(engine, cap, st);
+            let panicked = r.get("s").and_then(|s| s.as_str()) == Some("panic");
             results.push(r);
+            if panicked && case.get("stop_on_panic").and_then(|b| b.as_bool()).unwrap_or(false) {
+                // state after a caught panic may be poisoned: report this case and end the child
+                let out = json!({"id": case.get("id").cloned().unwrap_or(Value::Null), "steps": results, "poisoned": true});
+                return out;
+            }
         }
     }
     json!({"id": case.get("id").cloned().unwrap_or(Value::Null), "steps": results})
@@ -157,10 +176,17 @@ pub fn main(args: &[String]) {
             for c in &cases {
                 let r = run_case(&mut engine, &mut cap, c);
                 emit(&r.to_string());
+                if r.get("poisoned").is_some() {
+                    break;
+                }
             }
         });
         let mut o = stdout.lock();
-        for l in &res.lines {
+        // keep only the last of each run of consecutive progress marks
+        for (i, l) in res.lines.iter().enumerate() {
+            if l.starts_with("{\"mark\":") && res.lines.get(i + 1).map(|n| n.starts_with("{\"mark\":")).unwrap_or(false) {
+                continue;
+            }
             let _ = writeln!(o, "{}", l);
         }
         let _ = writeln!(o, "{}", json!({"done":true,"exit":res.exit}));
